@@ -667,7 +667,9 @@ def op_initial_boxes(seed):
     return [
         {"a": RS.from_rows(C.Q, OQ, [(v(0),), (v(1),), (NAN,), (v(2),)], "A0"),
          "b": RS.from_rows(C.Q, OQ + 2, [(v(3), v(4)), (NAN, v(5)), (v(6), v(7))], "B0"),
-         "c": 3.0, "ab": 7.5},
+         "c": 3.0, "ab": 7.5,
+         # an integer-frequency series (Frequency.INTEGER has the value 0)
+         "g": RS.from_rows(C.I, 2, [(v(30),), (NAN,), (v(31),), (v(32),)], "G0")},
         {"a": RS.from_rows(C.Q, OQ + 1, [(v(8), v(9)), (v(10), v(11))], "A1"),
          "b": RS.from_rows(C.M, OM, [(v(12),), (v(13),), (v(14),)], "B1"),
          "c": [1.0, 2.0], "ab": 7.5},
@@ -684,11 +686,14 @@ def op_operand_boxes(seed):
         {"a": RS.from_rows(C.Q, OQ - 2, [(v(i),) for i in range(7)], "oa0"),
          "b": RS.from_rows(C.Q, OQ + 1, [(v(7),), (NAN,), (v(8),)], "ob0"),
          "c": RS.from_rows(C.Q, OQ, [(v(9),), (v(10),)], "oc0"),
-         "d": 7.0},
+         "d": 7.0,
+         "g": RS.from_rows(C.I, 0, [(v(28),), (v(29),), (v(30),), (NAN,), (NAN,), (NAN,), (v(31),)], "og0"),
+         "f": 1.5},
         {"a": RS.from_rows(C.Q, OQ + 2, [(v(11), v(12)), (v(13), NAN), (NAN, v(14)), (v(15), v(16))], "oa1"),
          "b": RS.from_rows(C.M, OM - 1, [(v(17),), (v(18),), (v(19),)], "ob1"),
          "c": [9.0],
-         "e": RS.from_rows(C.Q, OQ, [(v(20),)], "oe1")},
+         "e": RS.from_rows(C.Q, OQ, [(v(20),)], "oe1"),
+         "f": [2.5]},
         {"a": RS.from_rows(C.M, OM + 1, [(v(21),), (v(22),)], "oa2"),
          "b": RS.from_rows(C.Q, OQ + 3, [(v(23), v(24), v(25))], "ob2"),
          "c": 5.0,
@@ -721,6 +726,8 @@ def op_alphabet(thorough):
     # a single name given as a plain string whose siblings ("a", "b") are substrings of it
     A += [("keep", _S("ab")), ("remove", _S("ab")), ("copy", _S("ab"), None)]
     A += [("merge", (o,), s) for o in (0, 1) for s in ("stack", "replace", "discard")]
+    # two databoxes merged in one call: they share the key "f", which no receiver has
+    A += [("merge", (0, 1), s) for s in ("stack", "replace", "discard")]
     A += [("shallow", None, None), ("shallow", _L("b", "c"), _L("c", "b")), ("shallow", ("pred", "short"), ("func", "upper"))]
     A += [("or", 0), ("or", 1)]
     if thorough:
@@ -733,7 +740,7 @@ def op_alphabet(thorough):
               ("rename", ("pred", "short"), ("func", "same"))]
         A += [("keep", None), ("keep", ("pred", "none")), ("keep", ("pred", "has_x"))]
         A += [("remove", None), ("remove", _L("c", "a")), ("remove", ("pred", "short"))]
-        A += [("merge", (2,), s) for s in ("stack", "replace", "discard")] + [("merge", (0, 1), "stack"), ("merge", (1, 0), "discard")]
+        A += [("merge", (2,), s) for s in ("stack", "replace", "discard")] + [("merge", (1, 0), "stack"), ("merge", (1, 0), "discard")]
         A += [("shallow", _S("a"), _S("b")), ("shallow", _L("a", "zz"), None)]
         A += [("or", 2)]
     return A
